@@ -405,6 +405,15 @@ def judge_group(ctx: common.Ctx, g: dict[str, Any], res: dict[str, Any]) -> None
             ctx.cell(f"agree:{pa['src']}-vs-{pb['src']}")
             if _strip(a["global"]) or any(_strip(v) for v in (a.get("mods") or {}).values()):
                 ctx.nontriv("pair", dest, vid, pa["src"], pb["src"], _spell_kind(pb["spelling"]))
+                if sum(1 for x in ctx.samples if x.get("kind") == "equivalence") < 4 and a.get("built") and b.get("built") \
+                        and _diag(a, dest) != _diag(base, dest) and not any(x.get("option") == dest for x in ctx.samples):
+                    ctx.sample({"kind": "equivalence", "option": dest, "value": vid,
+                                "A": {"source": pa["src"], "argv": pa.get("argv"), "config": pa.get("config"), "line1": pa.get("line1")},
+                                "B": {"source": pb["src"], "argv": pb.get("argv"), "config": pb.get("config"), "line1": pb.get("line1")},
+                                "options_changed_vs_baseline": _strip(a["global"]) or {m: _strip(v) for m, v in a["mods"].items() if _strip(v)},
+                                "diagnostics_equal": True,
+                                "witness_lines_changed_vs_baseline": len(set((a.get("out") or "").splitlines()) ^ set((base.get("out") or "").splitlines()))},
+                               force=True)
     # ---- (c) a per-module source gives module w the options a global source gives it
     for vid in sorted({v for v, _ in parts}):
         gi, mi = parts.get((vid, "global")), parts.get((vid, "module"))
@@ -602,8 +611,7 @@ def run(ctx: common.Ctx) -> None:
     if part_missing:
         ctx.inconc("part-incomplete:" + ",".join(part_missing))
         ctx.floor_evaluations = 10 ** 9
-    sm = [s for s in ctx.samples]
-    ctx.samples = sm[:8]
+    ctx.max_samples = 10
 
 
 def judge_prec(ctx: common.Ctx, t: dict[str, Any], res: dict[str, Any]) -> None:
@@ -640,9 +648,10 @@ def judge_prec(ctx: common.Ctx, t: dict[str, Any], res: dict[str, Any]) -> None:
                           {"case": case, "config": c.get("config"), "argv": c.get("argv"), "violation": v,
                            "other_violations_same_case": c.get("n_violations"), "output_tail": c.get("out"),
                            "section_settings": "vlib.tasks.c17_tasks.section_settings(i) / layers(variant)"})
-        if not c.get("violations") and c.get("nontrivial") and len(ctx.samples) < 8 and (len(case["sections"]) == 3):
+        if not c.get("violations") and c.get("nontrivial") and (len(case["sections"]) == 3) \
+                and sum(1 for x in ctx.samples if x.get("kind") == kind) < 2:
             ctx.sample({"kind": kind, "sections": case["sections"], "variant": case["variant"], "fmt": case["fmt"],
-                        "evaluations": c.get("evals"), "modules_with_>=2_matching_sections": c.get("nontrivial")})
+                        "evaluations": c.get("evals"), "modules_with_>=2_matching_sections": c.get("nontrivial")}, force=True)
 
 
 def replay(ctx: common.Ctx, rep: dict[str, Any]) -> int:
